@@ -73,11 +73,20 @@ BlendWhy(e) ==
   ELSE IF ~AllFin(e.out) THEN "non-finite-result"
   ELSE "ok"
 
+(* leaving premultiplied alpha by any of its ways (trait, method, Alpha::from, the bare colour's From): finite for
+   finite components in [0, 1], also at alpha = 0 *)
+UnpremulWhy(e) ==
+  IF ~UnitOk(e.p) THEN "ok"
+  ELSE IF e.panic = 1 THEN "panic"
+  ELSE IF ~AllFin(e.out) THEN "non-finite-result"
+  ELSE "ok"
+
 Why(e) == CASE e.ev = "walk" -> WalkWhy(e)
             [] e.ev = "bounds" -> BoundsWhy(e)
             [] e.ev = "fin" -> FinWhy(e)
             [] e.ev = "op" -> OpWhy(e)
             [] e.ev \in {"blend", "compose", "custom", "eqn"} -> BlendWhy(e)
+            [] e.ev = "unpremul" -> UnpremulWhy(e)
             [] OTHER -> "ok"
 
 TInit == l = 1
